@@ -49,6 +49,9 @@ type scenario struct {
 	// AlignAccept (cancel "if"): attempts with acceptable results wait for each other inside the predicate (up to 300 us), so
 	// that two results are accepted at the same instant
 	AlignAccept bool `json:"align_accept,omitempty"`
+	// SlowReject (cancel "if"): the predicate takes 300 us to say no to a result it does not accept; an acceptable result
+	// that is produced meanwhile by another attempt is still accepted, at once
+	SlowReject bool `json:"slow_reject,omitempty"`
 	// SharedBuilder: the builder is used again (more hedges, another listener) after the policy under test was built
 	SharedBuilder bool `json:"shared_builder,omitempty"`
 	Async         bool `json:"async"`
@@ -181,6 +184,10 @@ func run(sc scenario, propID string) (out runOut) {
 				// winner, and it is the one whose result the caller gets
 				inPredicate.Add(1)
 				for end := time.Now().Add(300 * time.Microsecond); inPredicate.Load() < 2 && time.Now().Before(end); {
+				}
+			}
+			if sc.SlowReject && !match {
+				for end := time.Now().Add(300 * time.Microsecond); time.Now().Before(end); {
 				}
 			}
 			return match
@@ -545,6 +552,7 @@ func genScenario(t *rapid.T) scenario {
 	sc.Placement = rapid.SampledFrom([]string{"alone", "alone", "retry(hedge)", "timeout(hedge)", "fallback(hedge)", "hedge(timeout)"}).Draw(t, "placement")
 	sc.SharedBuilder = rapid.IntRange(0, 3).Draw(t, "sharedBuilder") == 0
 	sc.AlignAccept = sc.Cancel == "if" && rapid.Bool().Draw(t, "alignAccept")
+	sc.SlowReject = sc.Cancel == "if" && rapid.Bool().Draw(t, "slowReject")
 	sc.Async = rapid.Bool().Draw(t, "async")
 	for i := 0; i < sc.MaxHedges; i++ {
 		ds := []int64{0, 200, 1000, 3000, 5000}
